@@ -26,6 +26,12 @@ Spec run (model independent, Fractions on the exact rationals denoted by the dou
 Buffers: sequences of same-size problems solved into caller-supplied, dirty `tableau=`, `basis=`, `z=` arrays
 (garbage / NaN / previous results): res.z is the buffer, inputs unchanged, bit-identical to a fresh call, exact
 oracle on the returned z, model op `lemkefb` with the prior contents (theorem `lemke_buffers_irrelevant`).
+Forms x histories x aliasing (`forms_stream`): the same small-integer problem passed in every accepted form (C / F /
+strided / reversed / transposed views; int8..int64, uint*, float32; d omitted / None / positional / keyword / views;
+max_iter as Python int, NumPy ints and floats, bool, 0-d array, 2.5, 0; PivOptions of Python / NumPy float64 /
+float32 / int 0; caller buffers C / F / strided) must answer bit-identically to the canonical C float64 call and to
+the model; every returned z is kept and re-judged (bitwise) after every later call; np.shares_memory against
+inputs, buffers and all earlier results; inputs bitwise unchanged; forms the signature rejects raise TypingError.
 Generators: corpus (harness/corpus/c11_*.json) first, the test-suite instances, random classes x data kinds,
 degenerate 0/+-1 problems, n in 7..10 (5%), int64 arrays, small max_iter, three tolerance settings, bad d.
 """
@@ -285,6 +291,333 @@ def replay(data):
     return 1 if bad else 0
 
 
+# ----------------------------------------------------------------------------
+# argument forms, call histories, aliasing
+
+def _bits(a):
+    a = np.asarray(a)
+    return a.tobytes()
+
+
+def finding(ctx, key, what, replay):
+    """a defect of the CLEAN code outside what the property's listed findings cover: counted as
+    `unlisted-finding:<key>` (first example kept in the evidence) until known_findings.txt lists the key"""
+    if key in ctx.known:
+        ctx.spec_fail(key, what, replay)
+        return
+    ctx.count("unlisted-finding:" + key)
+    ctx.extra.setdefault("unlisted_findings", {}).setdefault(key, {"what": what, "replay": replay})
+
+
+def _layout(a, how):
+    """same values, different memory layout"""
+    a = np.array(a)
+    if how == "C":
+        return np.ascontiguousarray(a)
+    if how == "F":
+        return np.asfortranarray(a)
+    if how == "strided":
+        big = np.zeros(tuple(2 * k for k in a.shape), dtype=a.dtype)
+        idx = tuple(slice(None, None, 2) for _ in a.shape)
+        big[idx] = a
+        return big[idx]
+    if how == "reversed":
+        idx = tuple(slice(None, None, -1) for _ in a.shape)
+        return np.ascontiguousarray(a[idx])[idx]
+    if how == "transposed":
+        return np.ascontiguousarray(a.T).T
+    raise ValueError(how)
+
+
+# menu of forms: (name, dict).  Keys: Mdt, Mlay, qdt, qlay, d ("omit","none","C","strided","reversed"),
+# mi (None | ("py",k) | (numpy type name,k) | ("float",x) | ("bool",b) | ("0d",k)), mi_pos (positional?),
+# piv (None | "default" | "np64" | "np32" | "ints0"), buf (subset of "tbz"), zlay, tlay
+FORM_MENU = [
+    ("M-F", dict(Mlay="F")), ("M-strided", dict(Mlay="strided")), ("M-reversed", dict(Mlay="reversed")),
+    ("M-transposed", dict(Mlay="transposed")), ("q-strided", dict(qlay="strided")),
+    ("q-reversed,d-reversed", dict(qlay="reversed", d="reversed")), ("d-strided", dict(d="strided")),
+    ("d-None-positional", dict(d="none")), ("d-keyword", dict(d="C")),
+    ("int64", dict(Mdt="int64", qdt="int64")), ("int32", dict(Mdt="int32", qdt="int32")),
+    ("int16-F", dict(Mdt="int16", qdt="int16", Mlay="F")), ("int8", dict(Mdt="int8", qdt="int8")),
+    ("M-int64,q-float", dict(Mdt="int64")), ("float32", dict(Mdt="float32", qdt="float32")),
+    ("M-float32-strided", dict(Mdt="float32", Mlay="strided")),
+    ("uint8-M", dict(Mdt="uint8")), ("uint64-M", dict(Mdt="uint64")), ("uint16-M-F", dict(Mdt="uint16", Mlay="F")),
+    ("mi-np.int32", dict(mi=("int32", None))), ("mi-np.uint8-positional", dict(mi=("uint8", None), mi_pos=True)),
+    ("mi-np.int8", dict(mi=("int8", None))), ("mi-np.intp", dict(mi=("intp", None))),
+    ("mi-np.uint64", dict(mi=("uint64", None))),
+    ("mi-float", dict(mi=("float", None))), ("mi-float-2.5", dict(mi=("float", 2.5))),
+    ("mi-np.float32", dict(mi=("float32", None))), ("mi-bool", dict(mi=("bool", True))),
+    ("mi-0d-array", dict(mi=("0d", None))), ("mi-zero", dict(mi=("py", 0))),
+    ("piv-default-object", dict(piv="default")), ("piv-np.float64", dict(piv="np64")),
+    ("piv-np.float32", dict(piv="np32")), ("piv-ints-0", dict(piv="ints0")),
+    ("buf-z", dict(buf="z")), ("buf-z-strided", dict(buf="z", zlay="strided")),
+    ("buf-tableau-F", dict(buf="t", tlay="F")), ("buf-tableau-C", dict(buf="t")),
+    ("buf-tableau+basis", dict(buf="tb")), ("buf-all", dict(buf="tbz")),
+    ("buf-all,M-F,int32", dict(buf="tbz", Mlay="F", Mdt="int32", qdt="int32")),
+]
+
+REJECTED_FORMS = [  # not accepted by the nopython signature: a TypingError, every time, and no damage afterwards
+    ("q-list", lambda M, q, d: ((M, list(q)), {})), ("M-list-of-lists", lambda M, q, d: ((M.tolist(), q), {})),
+    ("q-tuple", lambda M, q, d: ((M, tuple(q)), {})), ("d-int-array", lambda M, q, d: ((M, q, np.ones(len(q), dtype=np.int64)), {})),
+    ("z-float32-buffer", lambda M, q, d: ((M, q), {"z": np.empty(len(q), dtype=np.float32)})),
+    ("q-column-2d", lambda M, q, d: ((M, q.reshape(-1, 1)), {})),
+]
+
+
+def forms_stream(ctx, lcp_lemke, PivOptions, cases, DEF_TOLS, classes):
+    import numba
+    rng = ctx.rng
+    t_pool = {}
+    kept = []            # every returned z of this stream: (array object, bytes at return time, label, owner buffer)
+
+    def rejudge(after):
+        for arr, b0, label, owner in kept:
+            if arr.tobytes() != b0:
+                ctx.spec_fail("history_result_changed",
+                              "the z returned by call [%s] changed after call [%s]" % (label, after),
+                              {"earlier_call": label, "later_call": after,
+                               "z_at_return": np.frombuffer(b0, dtype=arr.dtype).tolist(), "z_now": arr.tolist()})
+
+    def keep(arr, label, owner):
+        if owner is not None:   # documented output buffer: reuse overwrites the earlier result held in it
+            kept[:] = [k for k in kept if k[3] is not owner]
+        kept.append((arr, arr.tobytes(), label, owner))
+
+    def alias(z, named, label, own):
+        for name, arr in named:
+            if arr is None or arr is own:
+                continue
+            if np.shares_memory(z, arr):
+                ctx.spec_fail("aliasing_" + name.split("[")[0],
+                              "returned z shares memory with %s in call [%s]" % (name, label),
+                              {"call": label, "shares_with": name})
+        for arr, b0, lab, owner in kept:
+            if own is not None and owner is own:
+                continue
+            if np.shares_memory(z, arr):
+                ctx.spec_fail("aliasing_earlier_result",
+                              "returned z of call [%s] shares memory with the z returned by [%s]" % (label, lab),
+                              {"call": label, "earlier_call": lab})
+
+    n_prob = ctx.n(40, 400)
+    per_prob = ctx.n(4, 6)
+    menu_order = list(range(len(FORM_MENU)))
+    cursor = 0
+    for pi in range(n_prob):
+        n = rng.choice([1, 2, 2, 3, 3, 4, 5])
+        cls = rng.choice(classes)
+        # integer data small enough for every dtype (int8, float32): all forms denote the same rationals
+        if cls == "cop" or rng.random() < 0.25:
+            cls = "cop"
+            Mc = np.array([[float(rng.randint(0, 3)) for _ in range(n)] for _ in range(n)]).reshape(n, n)
+            for i in range(n):
+                Mc[i, i] = float(rng.randint(1, 4))
+        else:
+            Mc = np.ascontiguousarray(gen_matrix(rng, n, cls, "int"), dtype=float)
+            if np.abs(Mc).max() > 100:
+                Mc = np.clip(Mc, -100, 100)
+                cls = "gen"
+        qc = np.array([float(rng.randint(-9, 4)) for _ in range(n)])
+        dc = np.array([rng.choice([1.0, 2.0, 0.5, 1.5, 3.0]) for _ in range(n)])
+        for _ in range(per_prob):
+            fname, form = FORM_MENU[menu_order[cursor % len(menu_order)]]
+            cursor += 1
+            if cursor % len(menu_order) == 0:
+                rng.shuffle(menu_order)
+            Mdt, qdt = form.get("Mdt", "float64"), form.get("qdt", "float64")
+            if Mdt.startswith("uint") and (Mc < 0).any():
+                Mv = np.abs(Mc)
+                fcls = "gen"
+            else:
+                Mv, fcls = Mc, cls
+            Mf = _layout(Mv.astype(Mdt), form.get("Mlay", "C"))
+            qf = _layout(qc.astype(qdt), form.get("qlay", "C"))
+            dform = form.get("d", "omit")
+            df = None if dform in ("omit", "none") else _layout(dc, dform)
+            dcan = None if df is None else dc
+            # max_iter
+            mi = form.get("mi")
+            mi_val, mi_can = None, None
+            if mi is not None:
+                kind, v = mi
+                k = rng.choice([1, 2, 3, 5, 50]) if v is None else v
+                if kind == "py":
+                    mi_val, mi_can = int(k), int(k)
+                elif kind == "float":
+                    mi_val, mi_can = float(k), int(-(-float(k) // 1))      # `num_iter < 2.5` allows 3 pivots
+                elif kind == "bool":
+                    mi_val, mi_can = bool(k), int(bool(k))
+                elif kind == "0d":
+                    mi_val, mi_can = np.array(int(k)), int(k)
+                else:
+                    mi_val, mi_can = getattr(np, kind)(k), int(k)
+            # PivOptions
+            piv = form.get("piv")
+            tols = DEF_TOLS
+            pv = None
+            if piv == "default":
+                pv = PivOptions()
+            elif piv == "np64":
+                pv = PivOptions(np.float64(1e-6), np.float64(DEF_TOLS[0]), np.float64(DEF_TOLS[1]))
+            elif piv == "np32":
+                pv = PivOptions(np.float32(1e-6), np.float32(1e-7), np.float32(1e-13))
+                tols = (float(np.float32(1e-7)), float(np.float32(1e-13)))
+            elif piv == "ints0":
+                pv = PivOptions(0, 0, 0)
+                tols = (0.0, 0.0)
+            # buffers
+            buf = form.get("buf", "")
+            zb = tb = bb = None
+            if "z" in buf:
+                zb = _layout(np.full(n, np.nan), form.get("zlay", "C"))
+            if "t" in buf:
+                # work arrays are reused over the calls of this stream (one per size and layout), re-dirtied each
+                # time: a result that still lived in one of them would be seen to change by `rejudge`
+                tkey = (n, form.get("tlay", "C"))
+                if tkey not in t_pool:
+                    t_pool[tkey] = _layout(np.full((n, 2 * n + 2), np.nan), form.get("tlay", "C"))
+                tb = t_pool[tkey]
+                tb[...] = np.nan
+            if "b" in buf:
+                bb = np.full(n, -7, dtype=np.int_)
+            # the call
+            args = [Mf, qf]
+            kw = {}
+            if dform == "none":
+                args.append(None)
+            elif df is not None:
+                if form.get("mi_pos") or rng.random() < 0.5:
+                    args.append(df)
+                else:
+                    kw["d"] = df
+            if mi_val is not None:
+                if form.get("mi_pos") and len(args) >= 2:
+                    if len(args) == 2:
+                        args.append(None)
+                    args.append(mi_val)
+                else:
+                    kw["max_iter"] = mi_val
+            if pv is not None:
+                kw["piv_options"] = pv
+            if zb is not None:
+                kw["z"] = zb
+            if tb is not None:
+                kw["tableau"] = tb
+            if bb is not None:
+                kw["basis"] = bb
+            label = "%s n=%d #%d" % (fname, n, pi)
+            before = (_bits(Mf), _bits(qf), None if df is None else _bits(df))
+            rp = {"form": fname, "M": Mv.tolist(), "M_dtype": Mdt, "M_layout": form.get("Mlay", "C"), "q": qc.tolist(),
+                  "q_dtype": qdt, "q_layout": form.get("qlay", "C"), "d": None if df is None else dc.tolist(),
+                  "max_iter": repr(mi_val), "piv_options": repr(pv), "buffers": buf}
+            try:
+                res = lcp_lemke(*args, **kw)
+            except Exception as e:      # every form of the menu is accepted by the clean code
+                ctx.spec_fail("form_rejected", "%s raised %s" % (fname, type(e).__name__), rp)
+                continue
+            ctx.count("form:" + fname)
+            z = res.z
+            # canonical call: C-contiguous float64, Python int, PivOptions of Python floats, no buffers
+            ckw = {}
+            if mi_can is not None:
+                ckw["max_iter"] = mi_can
+            if pv is not None:
+                ckw["piv_options"] = PivOptions(1e-6, tols[0], tols[1])
+            can = lcp_lemke(np.ascontiguousarray(Mv, dtype=float), qc.copy(), None if dcan is None else dcan.copy(),
+                            **ckw)
+            same = (int(can.status) == int(res.status) and int(can.num_iter) == int(res.num_iter)
+                    and np.asarray(can.z, dtype=float).tobytes() == np.asarray(z, dtype=float).tobytes())
+            rp.update({"z": np.asarray(z).tolist(), "status": int(res.status), "num_iter": int(res.num_iter),
+                       "canonical_z": can.z.tolist(), "canonical_status": int(can.status),
+                       "canonical_num_iter": int(can.num_iter)})
+            if not same:
+                what = ("form [%s] answers z=%s status=%d num_iter=%d, the same problem as C-contiguous float64 "
+                        "arrays / Python scalars answers z=%s status=%d num_iter=%d" % (
+                            fname, np.asarray(z).tolist(), res.status, res.num_iter, can.z.tolist(), can.status,
+                            can.num_iter))
+                if Mdt.startswith("uint"):
+                    finding(ctx, "uint_M_negation_wraps", what, rp)
+                else:
+                    ctx.spec_fail("argument_form", what, rp)
+            # inputs untouched
+            if (_bits(Mf), _bits(qf), None if df is None else _bits(df)) != before:
+                ctx.spec_fail("inputs_mutated", "form [%s]: M, q or d modified by the call" % fname, rp)
+            # identity of the output buffer, aliasing
+            if zb is not None and not (z.ctypes.data == zb.ctypes.data and z.strides == zb.strides):
+                ctx.spec_fail("buffer_identity", "form [%s]: res.z is not the supplied z buffer" % fname, rp)
+            alias(z, [("M", Mf), ("q", qf), ("d", df), ("tableau[buffer]", tb), ("basis[buffer]", bb),
+                      ("M.base", Mf.base if isinstance(Mf.base, np.ndarray) else None),
+                      ("q.base", qf.base if isinstance(qf.base, np.ndarray) else None)], label, zb)
+            alias(can.z, [("M", Mf), ("q", qf), ("d", df)], label + " (canonical)", None)
+            keep(z, label, zb)
+            keep(can.z, label + " (canonical)", None)
+            rejudge(label)
+            # exact oracle on the form's own answer
+            if res.success and not np.all(np.isfinite(np.asarray(z, dtype=float))):
+                ctx.spec_fail("success_solves_form", "form [%s]: success with non-finite z %s" % (
+                    fname, np.asarray(z).tolist()), rp)
+            elif res.success and tols[0] != 0.0 and not Mdt.startswith("uint"):
+                Mq = [[Fraction(float(v)) for v in row] for row in Mv]
+                qq = [Fraction(float(v)) for v in qc]
+                mz, mw, comp = lcp_residuals(Mq, qq, [Fraction(float(v)) for v in z])
+                eps = Fraction(ENV) * Fraction(max(1.0, float(np.abs(Mv).max()), float(np.abs(qc).max()),
+                                                   float(np.abs(z).max())))
+                if mz < -eps or mw < -eps or comp > eps * max(1, n):
+                    ctx.spec_fail("success_solves_form", "form [%s]: success but min z=%g, min(Mz+q)=%g, |z.w|=%g" % (
+                        fname, float(mz), float(mw), float(comp)), rp)
+            if mi_val is None and piv in (None, "default", "np64") and fcls in ("pd", "p", "cop") \
+                    and int(res.status) != 0 and not Mdt.startswith("uint"):
+                ctx.spec_fail("solvable_class_form", "form [%s]: status %d on a %s matrix" % (fname, res.status, fcls), rp)
+            # the model on the values the form denotes
+            if not Mdt.startswith("uint"):
+                dd = np.ones(n) if dcan is None else dcan
+                mi_eff = 10 ** 6 if mi_can is None else mi_can
+                if int(res.status) != 1 and mi_eff > int(res.num_iter) + 1000:
+                    mi_eff = int(res.num_iter) + 1000
+                line = "C11 lemkef n=%d M=%s q=%s d=%s maxiter=%d tolpiv=%s toldiff=%s" % (
+                    n, fxm(Mv), fxs(qc), fxs(dd), mi_eff, fx(tols[0]), fx(tols[1]))
+                bstr = "?" if bb is None else ("-" if (bb == -7).all() else ",".join(str(int(v)) for v in bb))
+                impl = "success=%d status=%d num_iter=%d basis=%s z=%s" % (
+                    1 if res.success else 0, int(res.status), int(res.num_iter), bstr, fxs(np.asarray(z, dtype=float)))
+
+                def cmp_form(mo, im):
+                    a, b = parse_out(mo), parse_out(im)
+                    for k2 in ("success", "status", "num_iter", "z"):
+                        if a[k2] != b[k2]:
+                            return "%s differs" % k2
+                    if b["basis"] != "?" and a["basis"] != b["basis"]:
+                        return "basis differs"
+                    return None
+                cases.append(Case(line, impl, nontrivial=bool((qc < 0).any()), cmp=cmp_form, tag="lemkef-form"))
+
+    # forms the nopython signature does not accept: a TypingError every time, no damage afterwards
+    Mr = np.array([[2.0, 1.0], [1.0, 3.0]])
+    qr = np.array([-1.0, -2.0])
+    ref = lcp_lemke(Mr, qr).z.tobytes()
+    for rounds in range(ctx.n(1, 2)):
+        for fname, mk in REJECTED_FORMS:
+            a, k = mk(Mr, qr, None)
+            try:
+                lcp_lemke(*a, **k)
+                got = "accepted"
+            except numba.core.errors.TypingError:
+                got = "TypingError"
+            except Exception as e:
+                got = type(e).__name__
+            ctx.count("rejected-form:%s:%s" % (fname, got))
+            if got != "TypingError":
+                ctx.spec_fail("rejected_form", "form %s: expected a TypingError, got %s" % (fname, got), {"form": fname})
+            if lcp_lemke(Mr, qr).z.tobytes() != ref:
+                ctx.spec_fail("history_after_rejected_call", "a valid call answers differently after the rejected "
+                              "form %s" % fname, {"form": fname})
+    rejudge("end of the forms stream")
+    # empty problem (n = 0): trivial branch, empty z
+    r0 = lcp_lemke(np.empty((0, 0)), np.empty(0))
+    if not (r0.success and r0.status == 0 and r0.num_iter == 0 and r0.z.shape == (0,)):
+        ctx.spec_fail("empty_problem", "n = 0 is not answered with an empty successful result", {})
+    ctx.extra["kept_results_rejudged"] = len(kept)
+
+
 def run(ctx):
     from quantecon.optimize.lcp_lemke import lcp_lemke
     from quantecon.optimize.linprog_simplex import PivOptions
@@ -386,8 +719,10 @@ def run(ctx):
         tols = None if rng.random() < 0.6 else rng.choice(ALT_TOLS)
         problems.append((cls, real, Mx, q, d, mi, qmode, tols))
 
+    main_kept = []      # every z returned by the main stream, with its bytes at return time
     for cls, real, Mx, q, d, mi, qmode, tols in problems:
         n = len(q)
+        in_before = (Mx.tobytes(), q.tobytes(), None if d is None else d.tobytes())
         if real == "int" and np.all(Mx == np.round(Mx)) and np.all(q == np.round(q)) and rng.random() < 0.15:
             # the test-suite passes integer arrays: same algorithm on an int64 signature
             res, basis = call_code(lcp_lemke, PivOptions, Mx.astype(np.int64), q.astype(np.int64), d, mi, tols)
@@ -399,6 +734,16 @@ def run(ctx):
         ctx.count("tols:%s" % ("default" if tols is None else "%g,%g" % tols))
         z = np.array(res.z, dtype=float)
         status = int(res.status)
+        if (Mx.tobytes(), q.tobytes(), None if d is None else d.tobytes()) != in_before:
+            ctx.spec_fail("inputs_mutated", "lcp_lemke modified M, q or d",
+                          {"M": Mx.tolist(), "q": q.tolist(), "d": None if d is None else d.tolist()})
+        if np.shares_memory(res.z, Mx) or np.shares_memory(res.z, q) or (d is not None and np.shares_memory(res.z, d)) \
+                or np.shares_memory(res.z, basis):
+            ctx.spec_fail("aliasing_inputs", "returned z shares memory with an input or the basis buffer",
+                          {"M": Mx.tolist(), "q": q.tolist()})
+        if main_kept and np.shares_memory(res.z, main_kept[-1][0]):
+            ctx.spec_fail("aliasing_earlier_result", "returned z shares memory with the previous result", {})
+        main_kept.append((res.z, res.z.tobytes(), len(main_kept)))
         dd = np.ones(n) if d is None else d
         mi_eff = 10 ** 6 if mi is None else mi
         # the model is asked for the same run with the iteration limit cut down to num_iter + 1000 when the
@@ -655,6 +1000,18 @@ def run(ctx):
                                   % (r2.z.tolist(), fresh.z.tolist()), dict(rp, call="lcp_lemke(M, q, d, z=zbuf)"))
                 ctx.count("buffers:z-only-calls")
 
+    # every result of the main stream, re-judged after all the later calls of this process
+    def rejudge_main(when):
+        for arr, b0, k in main_kept:
+            if arr.tobytes() != b0:
+                ctx.spec_fail("history_result_changed", "the z returned by main-stream call #%d changed (%s)" % (k, when),
+                              {"z_at_return": np.frombuffer(b0).tolist(), "z_now": arr.tolist()})
+                break
+    rejudge_main("after the buffer histories")
+
+    # ---- argument forms x histories x aliasing (hardening round) -----------------------------------------
+    forms_stream(ctx, lcp_lemke, PivOptions, cases, DEF_TOLS, classes)
+
     # ---- out-of-domain covering vectors (d has zero / negative entries: documented as "must be strictly
     # positive", not checked by the code): no exception path exists; the Float instance must still follow the
     # code, bit for bit, NaNs compared as NaNs.  No spec (outside the property's quantifier).
@@ -707,6 +1064,8 @@ def run(ctx):
         if out != "bad-op":
             ctx.mismatches.append({"request": bad, "code": "bad-op", "model": out, "why": "malformed request answered"})
 
+    rejudge_main("end of run")
+    ctx.extra["kept_results_rejudged"] = ctx.extra.get("kept_results_rejudged", 0) + len(main_kept)
     ctx.run_cases(cases)
     nf = sum(1 for c in cases if c.tag in ("lemkef", "lemkef-bad-d", "firstrowf"))
     bad = sum(1 for m in ctx.mismatches if str(m.get("request", "")).split(" ")[1:2] in (["lemkef"], ["firstrowf"]))
